@@ -1,0 +1,28 @@
+//go:build verif
+
+package suggestion_goptuna_v1beta1
+
+import "github.com/c-bata/goptuna"
+
+// Verification-only accessors (build tag verif). Add-only; nothing here changes behaviour.
+
+// VerifTrials returns the goptuna study's trials (internal draws, external params, states), nil before the first request.
+func (s *SuggestionService) VerifTrials() ([]goptuna.FrozenTrial, error) {
+	s.mu.RLock()
+	defer s.mu.RUnlock()
+	if s.study == nil {
+		return nil, nil
+	}
+	return s.study.GetTrials()
+}
+
+// VerifTrialMapping returns a copy of the Katib trial name -> goptuna trial id mapping.
+func (s *SuggestionService) VerifTrialMapping() map[string]int {
+	s.mu.RLock()
+	defer s.mu.RUnlock()
+	m := make(map[string]int, len(s.trialMapping))
+	for k, v := range s.trialMapping {
+		m[k] = v
+	}
+	return m
+}
